@@ -10,7 +10,8 @@ use clvm_rs::allocator::{Allocator, NodePtr, SExp};
 use clvm_rs::cost::Cost;
 use clvm_rs::reduction::{Reduction, Response};
 
-use crate::classic::clvm::__type_compatibility__::{bi_one, bi_zero};
+use crate::classic::clvm::__type_compatibility__::{bi_one, bi_zero, Bytes, BytesFromType};
+use crate::classic::clvm::casts::bigint_from_bytes;
 use crate::classic::clvm::sexp::{
     atom, enlist, equal_to, first, fold_m, map_m, non_nil, proper_list,
 };
@@ -22,7 +23,7 @@ use crate::classic::clvm_tools::stages::stage_0::TRunProgram;
 use crate::classic::clvm_tools::stages::stage_2::helpers::quote;
 use crate::classic::clvm_tools::stages::stage_2::operators::AllocatorRefOrTreeHash;
 
-use crate::util::{number_from_u8, u8_from_number};
+use crate::util::u8_from_number;
 
 #[derive(Clone)]
 pub struct DoOptProg {}
@@ -223,9 +224,16 @@ fn path_from_args(
     match allocator.sexp(sexp) {
         SExp::Atom => {
             // Only sexp in scope.
+            // A path is the unsigned value of its atom, and path 0 is nil in any
+            // environment.
             let atom = allocator.atom(sexp);
-            let v = number_from_u8(atom.as_ref());
-            if v <= bi_one() {
+            let v = bigint_from_bytes(
+                &Bytes::new(Some(BytesFromType::Raw(atom.as_ref().to_vec()))),
+                None,
+            );
+            if v == bi_zero() {
+                Ok(sexp)
+            } else if v == bi_one() {
                 Ok(new_args)
             } else {
                 let sexp = allocator.new_atom(&u8_from_number(v.clone() >> 1).to_vec())?;
@@ -527,7 +535,7 @@ fn path_optimizer(
             match first
                 .get("atom")
                 .and_then(|a| atom(allocator, *a).ok())
-                .map(|atom| number_from_u8(&atom))
+                .map(|atom| bigint_from_bytes(&Bytes::new(Some(BytesFromType::Raw(atom))), None))
             {
                 Some(atom) => {
                     let node = NodePath::new(Some(atom)).add(NodePath::new(None).first());
@@ -540,7 +548,7 @@ fn path_optimizer(
             match rest
                 .get("atom")
                 .and_then(|a| atom(allocator, *a).ok())
-                .map(|atom| number_from_u8(&atom))
+                .map(|atom| bigint_from_bytes(&Bytes::new(Some(BytesFromType::Raw(atom))), None))
             {
                 Some(atom) => {
                     let node = NodePath::new(Some(atom)).add(NodePath::new(None).rest());
